@@ -43,6 +43,20 @@ theorem sockRead_open (kq : Str) (gone : Bool) (c : Nat) (cs : List Nat) (term :
   simp only
   split <;> simp [hne]
 
+/-- a transient answer (EAGAIN / EINTR) that the script really gives (no scripted call met an empty queue, where the real
+kernel takes over) never closes -/
+theorem sockRead_transient (kq : Str) (gone : Bool) (cs : List Nat) (term : Nat) (ht : termTransient term = true)
+    (hs : (rdChunks kq cs).2.2.2 = false) : (sockRead kq gone cs term).closed = false := by
+  have h0 : term ≠ 0 := by rintro rfl; simp [termTransient] at ht
+  unfold sockRead
+  simp [hs, h0, ht]
+
+/-- the read path as found (before fix 1c1abc6): every errno other than EAGAIN was fatal, EINTR too -/
+def sockReadAsFound (kq : Str) (gone : Bool) (chunks : List Nat) (term : Nat) : RdRes :=
+  let c := rdChunks kq chunks
+  if c.2.2.2 || term = 0 then sockRead kq gone chunks term
+  else { data := c.1, rest := c.2.1, closed := c.1.isEmpty && term ≠ 1, toks := c.2.2.1 ++ ["readv=" ++ termName term] }
+
 /-- successive read events on one queue (no new writes in between) -/
 def sockReads (gone : Bool) : Str → List (List Nat × Nat) → List Str × Str
   | kq, [] => ([], kq)
